@@ -369,7 +369,7 @@ struct Cand<std::vector<T>>
         break;
     }
     for (size_t i = 0; i < n && out.size() < 600; ++i)
-      for (auto &e : Cand<T>::of(v[i])) {
+      for (auto &&e : Cand<T>::of(v[i])) {
         std::vector<T> w = v;
         w[i] = e;
         out.push_back(std::move(w));
@@ -384,7 +384,7 @@ struct Cand<std::tuple<Ts...>>
   template <size_t I>
   static void one(const Tup &t, std::vector<Tup> &out)
   {
-    for (auto &e : Cand<std::tuple_element_t<I, Tup>>::of(std::get<I>(t))) {
+    for (auto &&e : Cand<std::tuple_element_t<I, Tup>>::of(std::get<I>(t))) {
       Tup c = t;
       std::get<I>(c) = e;
       out.push_back(std::move(c));
@@ -412,7 +412,7 @@ struct Cand<T, std::void_t<decltype(std::declval<T &>().tie())>>
     T probe = v;
     auto t = probe.tie();
     using E = std::remove_reference_t<std::tuple_element_t<I, Tup>>;
-    for (auto &e : Cand<E>::of(std::get<I>(t))) {
+    for (auto &&e : Cand<E>::of(std::get<I>(t))) {
       T c = v;
       std::get<I>(c.tie()) = e;
       out.push_back(std::move(c));
